@@ -87,6 +87,17 @@ def run_case(case):
     regs.sort(key=lambda r: r["start"])
     idx = {r["name"]: k for k, r in enumerate(regs)}
     model = MuxModel(regs, dw)
+
+    def coverage():
+        for r in regs:
+            mon.ok("mask_register_covers_all_events", (r["end"] - r["start"]) * dw >= n,
+                   f"{r['name']} must hold {n} event bits but the memory map gives it only [{r['start']},{r['end']}) x {dw} bits")
+            mon.ok("mask_register_covers_all_events", infos[r["name"]].resource.element.width == n,
+                   f"{r['name']}: element width {infos[r['name']].resource.element.width} != number of events {n}")
+
+    mon.run(coverage)
+    if mon.violations:
+        return mon.result(summary=summary)
     aw = len(bus.addr)
 
     def data_hook(i, r):
@@ -95,6 +106,8 @@ def run_case(case):
             return 0
         if x < 0.35:
             return (1 << max(1, n)) - 1
+        if x < 0.6 and n:
+            return 1 << rng.randrange(n)
         return bits(rng, n) if n else 0
 
     drv = CsrDriver(rng, regs, aw, dw, data_hook=data_hook)
